@@ -232,6 +232,7 @@ type webSocket struct {
 	pingC              chan []byte
 	closeC             chan websocket.CloseError // used to gracefully close a websocket connection.
 	forceCloseC        chan error                // used by the readPump to notify a forcefully closed connection to the writePump.
+	closing            chan struct{}             // closed when the cleanup starts. Releases routines waiting on a full queue, which would otherwise keep the cleanup from acquiring the lock.
 	tlsConnectionState *tls.ConnectionState
 	cfg                WebSocketConfig
 	log                logging.Logger
@@ -254,6 +255,7 @@ func newWebSocket(id string, conn *websocket.Conn, tlsState *tls.ConnectionState
 		pingC:              make(chan []byte, 1),
 		closeC:             make(chan websocket.CloseError, 1),
 		forceCloseC:        make(chan error, 1),
+		closing:            make(chan struct{}),
 		onClosed:           onClosed,
 		onError:            onError,
 		onMessage:          onMessage,
@@ -297,8 +299,12 @@ func (w *webSocket) WriteManual(messageTyp int, data []byte) error {
 	if w.connection == nil {
 		return fmt.Errorf("cannot write to closed connection %s", w.id)
 	}
-	w.outQueue <- msg
-	return nil
+	select {
+	case w.outQueue <- msg:
+		return nil
+	case <-w.closing:
+		return fmt.Errorf("cannot write to closing connection %s", w.id)
+	}
 }
 
 func (w *webSocket) Close(closeError websocket.CloseError) error {
@@ -307,8 +313,12 @@ func (w *webSocket) Close(closeError websocket.CloseError) error {
 	if w.connection == nil {
 		return fmt.Errorf("cannot close already closed connection %s", w.id)
 	}
-	w.closeC <- closeError
-	return nil
+	select {
+	case w.closeC <- closeError:
+		return nil
+	case <-w.closing:
+		return fmt.Errorf("cannot close already closing connection %s", w.id)
+	}
 }
 
 func (w *webSocket) updateConfig(cfg WebSocketConfig) {
@@ -356,10 +366,20 @@ func (w *webSocket) initPingPong() {
 }
 
 func (w *webSocket) onPing(appData string) error {
+	// The channel is closed by the cleanup: as for writes, the lock must be held while sending on it
+	w.mutex.RLock()
+	defer w.mutex.RUnlock()
 	conn := w.connection
+	if conn == nil {
+		return fmt.Errorf("ping received on closed connection %s", w.id)
+	}
 	w.log.Debugf("ping received from %s: %s", w.id, appData)
 	// Schedule pong message via dedicated channel
-	w.pingC <- []byte(appData)
+	select {
+	case w.pingC <- []byte(appData):
+	case <-w.closing:
+		return fmt.Errorf("ping received on closing connection %s", w.id)
+	}
 	w.log.Debugf("pong scheduled for %s", w.id)
 	// Reset read interval after receiving a ping
 	return conn.SetReadDeadline(w.getReadTimeout())
@@ -373,6 +393,8 @@ func (w *webSocket) onPong(appData string) error {
 }
 
 func (w *webSocket) cleanup(err error) {
+	// Routines blocked on a full queue hold the read lock: release them first
+	close(w.closing)
 	w.mutex.Lock()
 	// Properly close the connection
 	if e := w.connection.Close(); e != nil {
